@@ -31,6 +31,8 @@ import re
 
 WORDS = ['alpha', 'beta', 'gamma', 'delta', 'epsilon', 'lorem', 'ipsum', 'dolor', 'sit', 'amet', 'über', 'naïve', 'Straße', '中文',
          'x1', 'a2b', 'Zeta', 'ETA', 'theta', 'iota', 'kappa', 'lambda', 'mu', 'nu', 'xi', 'omicron', 'pi', 'rho', 'sigma', 'tau']
+# words with a character inside that str.splitlines() / \s treat as a separator but Markdown does not (form feed, FS, NEL, LS, PS, VT)
+EXOTIC_WORDS = ['al\x0cpha', 'be\x85ta', 'ga\u2028mma', 'de\x1clta', 'ep\u2029silon', 'ze\x0bta']
 CODE_WORDS = ['code', 'x = y', 'a*b', '_id_', 'f(x)', '<tag>', 'a & b', '[i]', 'foo  bar', '"q"', "it's", '~~no~~', '\\n', 'a|b', '**x**', '&amp;']
 # code-span contents whose space-separated pieces cannot be mistaken for a block marker when a reflow puts them at the start of a line
 PROSE_CODE_WORDS = ['code', 'a*b', '_id_', 'f(x)', 'foo  bar', '"q"', "it's", '~~no~~', '\\n', '**x**', '&amp;', 'a & b', 'one two three', 'x(1) y']
@@ -59,7 +61,7 @@ HTML7 = [['<x-note>', 'text *here*'], ['<my-tag attr="v">'], ['</x-note>'], ['<a
 
 PROFILES = {
     # switches: see generate()
-    'full': dict(rich_links=True),
+    'full': dict(rich_links=True, exotic_words=True),
     'roundtrip': dict(entities=False, indent4_cont=False, empty_items=False, rich_links='plain'),
     'normalform': dict(entities=False, indent4_cont=False, canonical=True, empty_items=False, blank_start_items=False),
     'prose': dict(entities=False, indent4_cont=False, prose=True, empty_items=False),
@@ -82,6 +84,7 @@ class Opt:
         self.table_escaped_pipe = True         # (was off for the round-trip profiles: C09-escaped-pipe-in-table-cell, repaired in f65540f)
         self.table_first_in_item = False   # known finding C03-table-starts-later-list-item
         self.para_after_closed_container = False   # known finding C03-lazy-after-nonparagraph: off by default
+        self.exotic_words = False     # words containing FF / NEL / LS ... (profile "full")
         self.rich_links = False       # destinations / titles with escapes, references and Markdown-significant characters (profile "full")
         self.lazy = True
         self.omit_blank = True
@@ -142,6 +145,8 @@ def gen_atom(rng, opt, depth, allow_link=True, emph_char=None, in_strike=False, 
     if simple or depth >= 2:
         r = r * 0.55
     if r < 0.40:
+        if opt.exotic_words and rng.random() < 0.08:
+            return ('text', rng.choice(EXOTIC_WORDS))
         return ('text', word(rng))
     if r < 0.50:
         c = rng.choice(CODE_WORDS if not opt.prose else PROSE_CODE_WORDS)
